@@ -192,7 +192,8 @@ int main(int argc, char** argv){
         }
     }
     // ---- periodic shifter (C10): which neighbours need a shift, by how many box widths, and the shifted copies of the positions
-    if constexpr(Per){
+#if PERIODICV && ORDERV == 0      // (the Hilbert ordering has no getBoxLimitAtLeafLevel(): the shifter does not instantiate with it; periodic Hilbert is not a documented configuration)
+    {
         using Shifter = typename TbfPeriodicShifter<Real, Space>::Neighbor;
         std::array<Real,Dim> aw, actr; for(long d = 0; d < Dim; ++d){ aw[d] = Real(1) + Real(0.5) * Real(d); actr[d] = Real(0.25) * Real(d) - Real(1); }   // anisotropic, off-centre, dyadic
         const Conf aconf(height, aw, actr); const Space aspace(aconf);
@@ -222,6 +223,7 @@ int main(int argc, char** argv){
             }
         }
     }
+#endif
     // ---- per-group builders: single-cell groups, the full level, and a sparse group with gaps
     for(long l = 0; l < height; ++l){
         auto& all = perLevel[l]; std::sort(all.begin(), all.end());
